@@ -1,0 +1,30 @@
+//go:build verif
+
+package antispoof
+
+import "github.com/cilium/ebpf"
+
+// Verification hook for property C06 (add-only; compiled only with -tags verif).
+
+// VerifC06SetMaps injects already-created kernel maps, addressed by the names
+// bpf/antispoof.c declares them under, in place of the ones Start takes from
+// the loaded collection (Start needs the compiled object and a NIC).  Absent
+// or nil entries leave the corresponding field untouched; unknown names are
+// ignored.  The maps themselves are not touched.
+func (m *Manager) VerifC06SetMaps(maps map[string]*ebpf.Map) {
+	for name, mp := range maps {
+		if mp == nil {
+			continue
+		}
+		switch name {
+		case "subscriber_bindings":
+			m.bindings = mp
+		case "antispoof_config":
+			m.config = mp
+		case "antispoof_stats":
+			m.stats = mp
+		case "allowed_ranges_v4":
+			m.ranges = mp
+		}
+	}
+}
